@@ -545,7 +545,7 @@ class HTMLBinaryInputStream(HTMLUnicodeInputStream):
         if newEncoding.name in ("utf-16be", "utf-16le"):
             newEncoding = lookupEncoding("utf-8")
             assert newEncoding is not None
-        elif newEncoding == self.charEncoding[0]:
+        if newEncoding == self.charEncoding[0]:
             self.charEncoding = (self.charEncoding[0], "certain")
         else:
             self.rawStream.seek(0)
